@@ -14,11 +14,11 @@ import time
 
 VERIF = os.path.dirname(os.path.dirname(os.path.abspath(__file__)))
 REPO = os.environ.get("MABWISER_REPO", "/repo")
-ENV = dict(os.environ, OMP_NUM_THREADS="1", MABWISER_REPO=REPO)
+ENV = dict(os.environ, OMP_NUM_THREADS="1", MABWISER_REPO=REPO, PYTHONPATH=REPO)
 
 
-def sh(cmd, cwd=None, timeout=3600):
-    p = subprocess.run(cmd, cwd=cwd, capture_output=True, text=True, timeout=timeout, env=ENV)
+def sh(cmd, cwd=None, timeout=3600, env=None):
+    p = subprocess.run(cmd, cwd=cwd, capture_output=True, text=True, timeout=timeout, env=env or ENV)
     return p.returncode, p.stdout + p.stderr
 
 
@@ -47,7 +47,8 @@ def do_import(wt, i, name):
     sh(["git", "checkout", "--", "mabwiser"], cwd=wt)
     rc, out = sh(["git", "apply", patch], cwd=wt)
     assert rc == 0, out
-    rc, out = sh(["/venv/bin/python", "-m", "pytest", "-q", "-p", "no:cacheprovider", "-n", "12", "--timeout=900"], cwd=wt)
+    rc, out = sh(["/venv/bin/python", "-m", "pytest", "-q", "-p", "no:cacheprovider", "-n", "12", "--timeout=900"], cwd=wt,
+                 env=dict(ENV, PYTHONPATH=wt))
     tail = out.strip().splitlines()[-1]
     meta["suite_with_change"] = tail
     sh(["git", "checkout", "--", "mabwiser"], cwd=wt)
